@@ -115,10 +115,7 @@ theorem best_match_unique (e : BEnv) (Γ : Ctx) (fac : Factory) (cfg : ParserCon
     ∃ kvs, encModelF Γ fac {} n (.obj k' fs') = .ok (.obj kvs) ∧
       bindBestWith (bindDataclassF e Γ n) Γ cfg ordered pool (.obj kvs) = ND.pure (.obj k' fs') := by
   obtain ⟨kvs, henc, hkeys, _, hdec⟩ := rt_all e Γ fac n k' _ hok
-  refine ⟨kvs, henc, ?_⟩
-  unfold bindBestWith
-  simp only [hkeys, hpool, List.map_cons, List.map_nil, hdec]
-  cases ordered <;> simp [ND.run, ND.pure, maxScore, ND.choose] <;> rfl
+  exact ⟨kvs, henc, bindBest_unique _ Γ cfg ordered pool kvs k' _ (by rw [hkeys]; exact hpool) hdec⟩
 
 example : valOKj benv0 subCtx .dict 2 "Ch2".toList
       (.obj "Ch2".toList [("v".toList, .prim (.int 1)), ("w".toList, .prim (.int 5))]) = true
